@@ -5,7 +5,7 @@
     (e2e matrix of not-selected conditions x entry points x roles, inbound data while not selected,
     pipelining at every cut point, gate scenarios compared for equality with the model). *)
 From Coq Require Import ZArith Bool List Lia.
-From GoSecs Require Import Hsms.SendCore Hsms.SendCoreMon Hsms.SendCoreGate.
+From GoSecs Require Import Hsms.SendCore Hsms.SendCoreMon Hsms.SendCoreGate Hsms.SendCoreInvSteps Hsms.SendCoreGateMon.
 Import ListNotations.
 Open Scope Z_scope.
 
@@ -69,6 +69,19 @@ Theorem C07_control_not_gated_B2 : forall fx p s c, c_pc c = PCheck -> isdata c 
   step_call fx p s c CGo = Some (upd s (set_pc c PWrite), []).
 Proof. exact control_not_gated_B2. Qed.
 Print Assumptions C07_control_not_gated_B2.
+
+(** The gate over whole runs.  For ALL action sequences (all interleavings of any number of senders
+    on every entry point with the dispatcher, the async sender, lifecycle events and any peer) the
+    gate clause of ok_C07 accepts the log: no frame attributed to a call that returned NotSelected or
+    NotOpen was ever seen on any socket — before or after the return —, and at every quiescent
+    snapshot the drop counter has grown by exactly the number of NotSelected refusals (synchronous
+    returns plus async-sender B2 drops) since the previous snapshot; NotOpen leaves it unchanged.
+    Holds for both step functions ([all_benign] is trivially true for the repaired one). *)
+Theorem C07_gate_all_runs : forall fx p acts c0 s os,
+  all_benign fx p (init c0) acts = true ->
+  run fx p (init c0) acts = Some (s, os) -> mon_run chk_gate mon0 os = true.
+Proof. exact gate_all_runs. Qed.
+Print Assumptions C07_gate_all_runs.
 
 (** ** Inbound data while not Selected: exactly one Reject.req, reason 4, echoing session id and
     system bytes, queued; no handler call (the observation list is empty), no waiter is offered
